@@ -47,7 +47,7 @@ def run(tier, seed):
     def shard(k):
         trace = os.path.join(wd, f"trace{k}.ndjson")
         harness(["screen", "--out", trace, "--seed", seed * 1000 + k, "--rounds", 1 if quick else 3, "--frames", 2,
-                 "--long", 70, "--beam", 2 if quick else 6])
+                 "--long", 300, "--beam", 2 if quick else 6])
         return (trace,) + validate(trace, f"t{k}")
 
     res = parallel([mc] + [lambda k=k: shard(k) for k in range(shards)])
@@ -87,7 +87,7 @@ def run(tier, seed):
     chk.cov["pixels_compared"] = frames * 49152
     chk.cov["rule"] = (f"{shards} shards x {1 if quick else 3} rounds x 21 delivery paths (CPU writes via 0x4000 and via 0xC000 with bank 5 / bank 7 paged, "
                        "paging locked followed by a write that would switch screens, an SNA snapshot taken with the stack inside the display file, LDIR, tape fast-load (48K to 0x4000; 128K through 0xC000 into bank 5 and into the displayed shadow bank 7), 48K/128K SNA, stored/compressed/shuffled SZX, SCR, pokes; 48K, 128K, shadow screen) with random and structured "
-                       "screens; >= 2 judged frames per path, one path per round over 70 frames (every frame judged, at 64 sampled pixels between the full canvases: the FLASH rhythm); per path ~100 writes (poke / CPU / bus) that the "
+                       "screens; >= 2 judged frames per path, one path per round over 300 frames (every frame judged, at 64 sampled pixels between the full canvases: the FLASH rhythm); per path ~100 writes (poke / CPU / bus) that the "
                        "memory map keeps out of the visible display file (beyond it, other banks, the other screen bank, addresses sharing low address "
                        "bits with display bytes) followed by judged frames; and single-byte writes at beam time +-40 T")
     chk.assumptions += ["the two frames after a delivery are not judged (memory changed during them); they count for the flash phase",
